@@ -1,6 +1,7 @@
 package main
 
 import (
+	"go/constant"
 	"fmt"
 	"go/ast"
 	"go/token"
@@ -223,6 +224,7 @@ func c15(c *Ctx) {
 	exprTextRule(c, "C15.9/expression-text-round-trips")
 	c15PresenceGuardsOnly(c, "C15.10/conversion-guards-are-presence-tests")
 	c15WireIntegersSignExtended(c, "C15.13/wire-integers-are-sign-extended")
+	c15BinaryResultsCoverEveryType(c, "C15.14/binary-results-cover-every-type")
 	c15ValueUsedOnSuccessOnly(c, "C15.12/fallible-getter-value-used-on-success-only", func(f *ssa.Function) bool {
 		// the converters between the store's types and their messages (module-wide the shape also matches partial results
 		// such as the byte count of a failed Write, returned on purpose)
@@ -824,5 +826,52 @@ func c15WireIntegersSignExtended(c *Ctx, r string) {
 	}
 	if n < 2 {
 		c.undecided(r, "floor", fmt.Sprintf("%d widenings of 2/4-byte wire integers to int64 found in pkg/pgsql/server (getInt64: 2 confirmed by hand)", n))
+	}
+}
+
+// typeConstsCompared: the SQLValueType constants a function compares (==) with a value accepted by isSubject
+// (a `switch x { case A, B: ... }` is lowered to such comparisons).
+func typeConstsCompared(f *ssa.Function, isSubject func(ssa.Value) bool) map[string]bool {
+	out := map[string]bool{}
+	allInstrs(f, false, func(in ssa.Instruction) {
+		bo, ok := in.(*ssa.BinOp)
+		if !ok || bo.Op != token.EQL {
+			return
+		}
+		for _, pair := range [][2]ssa.Value{{bo.X, bo.Y}, {bo.Y, bo.X}} {
+			k, ok := pair[1].(*ssa.Const)
+			if !ok || k.Value == nil || k.Value.Kind() != constant.String || !isSubject(pair[0]) {
+				continue
+			}
+			if !strings.HasSuffix(k.Type().String(), "sql.SQLValueType") {
+				continue
+			}
+			out[constant.StringVal(k.Value)] = true
+		}
+	})
+	return out
+}
+
+// c15BinaryResultsCoverEveryType: a result column is announced to the client with the PostgreSQL type of its SQL type;
+// in binary format the value follows in that type's binary encoding. The encoder switches over the SQL type: a type
+// that can be stored (the row value codec handles it) and has no case is sent as a zero-length value, which is neither
+// the value nor NULL. Same for NULL itself: it is announced with length -1, never as an empty value.
+func c15BinaryResultsCoverEveryType(c *Ctx, r string) {
+	enc := c.mustFn(r, "embedded/sql.EncodeRawValue")
+	dr := c.mustFn(r, "pkg/pgsql/server/bmessages.DataRow")
+	if enc == nil || dr == nil {
+		return
+	}
+	stor := typeConstsCompared(enc, func(v ssa.Value) bool { _, ok := v.(*ssa.Parameter); return ok })
+	sent := typeConstsCompared(dr, func(v ssa.Value) bool {
+		cl, ok := v.(*ssa.Call)
+		return ok && cl.Call.IsInvoke() && cl.Call.Method.Name() == "Type"
+	})
+	if len(stor) < 5 {
+		c.undecided(r, "storable-types", fmt.Sprintf("%d types found in EncodeRawValue", len(stor)))
+		return
+	}
+	for _, t := range sortedKeys(stor) {
+		c.check(sent[t], r, "binary-format:"+t, c.pos(dr.Pos()), "has a binary encoding in DataRow", "a value of type "+t+" can be stored and returned, but the binary result format has no case for it: it is sent as a zero-length value")
 	}
 }
